@@ -30,6 +30,7 @@ class ConcreteCtx:
     def __init__(self, model):
         self.model = model
         self.counters = {}
+        self.trace = []            # ghost events recorded by stub objects during a native replay
 
     def fresh_name(self, base):
         n = self.counters.get(base, 0)
@@ -38,7 +39,23 @@ class ConcreteCtx:
 
     def get(self, name, default, n=None):
         """value of constant `name` in the model; n: the value is an index below n"""
-        return self.model.get(name, default)
+        if name in self.model:
+            v = self.model[name]
+            if not (isinstance(v, dict) and '__fn__' in v):
+                return v
+        # an attribute of element k of a symbolic sequence is a function of the index in the model:
+        # 'xs[3].attr'  ->  the interpretation of 'xs[].attr' at 3
+        import re as _re
+        idx = [int(k) for k in _re.findall(r'\[(\d+)\]', name)]
+        if idx:
+            fn = self.model.get(_re.sub(r'\[\d+\]', '[]', name))
+            if isinstance(fn, dict) and '__fn__' in fn:
+                for args, value in fn['__fn__']:
+                    if list(args) == idx or list(args) == idx[-len(args):]:
+                        return value if not isinstance(value, str) or isinstance(default, str) else default
+                v = fn.get('else', default)
+                return v if not isinstance(v, str) or isinstance(default, str) else default
+        return default
 
 
 class RandomCtx(ConcreteCtx):
@@ -193,6 +210,13 @@ class Union(Ty):
         return self.alts[i].concrete(cx, name)
 
 
+def _bare_instance(cls):
+    try:
+        return object.__new__(cls)
+    except TypeError:          # a base class implemented in C (e.g. io.TextIOBase) has its own __new__
+        return cls.__new__(cls)
+
+
 class Inst(Ty):
     """A real instance of class ``cls`` with the given (already mangled) instance attributes."""
 
@@ -209,10 +233,12 @@ class Inst(Ty):
         elif issubclass(cls, BaseException):
             obj = cls.__new__(cls)
         else:
-            obj = object.__new__(cls)
+            obj = _bare_instance(cls)
         for k, t in self.fields.items():
             v = t.make(interp, '%s.%s' % (name, k)) if isinstance(t, Ty) else t
             object.__setattr__(obj, k, v)
+        if hasattr(interp, 'note_new_object'):
+            interp.note_new_object(obj)
         if self.invariant is not None:
             interp.st.assume(interp.truth(interp.call(self.invariant, [obj], {})))
         return obj
@@ -224,7 +250,7 @@ class Inst(Ty):
         elif issubclass(cls, BaseException):
             obj = cls.__new__(cls)
         else:
-            obj = object.__new__(cls)
+            obj = _bare_instance(cls)
         for k, t in self.fields.items():
             v = t.concrete(cx, '%s.%s' % (name, k)) if isinstance(t, Ty) else t
             object.__setattr__(obj, k, v)
@@ -234,6 +260,9 @@ class Inst(Ty):
 class Iface(Ty):
     def __init__(self, iface):
         self.iface = iface
+
+    def resolved(self):
+        return self.iface() if isinstance(self.iface, types.FunctionType) else self.iface
 
     def make(self, interp, name):
         iface = self.iface() if isinstance(self.iface, types.FunctionType) else self.iface
@@ -276,7 +305,9 @@ class ListOf(Ty):
         def elem(interp2, idx_term, uid=uid):
             return make_indexed(interp2, elem_ty, uid, idx_term)
 
-        return SList(n, elem, uid)
+        xs = SList(n, elem, uid, ident=(uid, ()))
+        xs.elem_ty = elem_ty
+        return xs
 
     def concrete(self, cx, name):
         n = cx.get(cx.fresh_name(name + '.len'), self.min_len, None)
@@ -286,13 +317,40 @@ class ListOf(Ty):
         return [self.elem.concrete(cx, '%s[%d]' % (name, i)) for i in range(n)]
 
 
+class MapOf(Ty):
+    """dict with symbolic contents (unbounded): keys of shape ``key`` (Str / Int), values of shape ``val``
+    (Str / Int / Bool, or ``Iface`` of a by-id interface).  Supports in, [], []=, del, get, pop,
+    setdefault, update, copy, dict(d), copy.copy(d), ==, clear; not iteration / len.
+    Opaque keys: objects whose interface names the attribute that decides their equality (``map_key``).
+    A value shape without scalar sort (``Any_``, an interface that is not by-id; default) means that the
+    values are not tracked: only the key set is symbolic, a read gives an arbitrary value of that shape."""
+
+    def __init__(self, key, val=None):
+        self.key = key
+        self.val = val
+
+    def make(self, interp, name):
+        from . import models
+        return models.new_smap(interp, name, self.key, self.val)
+
+
+class Derived:
+    """Interface attribute computed from the object by a sidecar function (interpreted on every read),
+    e.g. a property of the real class that only combines other attributes."""
+
+    def __init__(self, fn):
+        self.fn = fn
+
+
 class MListOf(Ty):
-    """A *mutable* list of symbolic length whose elements are ints / bools / strings or tuples of these
+    """A *mutable* list of symbolic length whose elements are ints / bools / strings, tuples of these, optional
+    values, indexed opaque objects (`RefTo`), opaque objects with an `mlist_codec`, or records (`Inst`) of these
     (pyvc.mlist.MList): results accumulated in loops, out-parameters.  In `M.loop(... modifies=...)` the
     list is havocked in place."""
 
-    def __init__(self, elem):
+    def __init__(self, elem, deque=False):
         self.elem = elem
+        self.deque = deque      # a collections.deque (without maxlen): additionally popleft / appendleft
 
     def shape(self):
         return _mshape(self.elem)
@@ -303,24 +361,72 @@ class MListOf(Ty):
         n = interp.st.fresh_int(name + '.len')
         interp.st.assume(n >= 0)
         m.length = n
+        m.is_deque = self.deque
+        m.new_base()
         return m
 
     def concrete(self, cx, name):
         return ListOf(self.elem).concrete(cx, name)
 
 
+class RefTo(Ty):
+    """Element type for MListOf: an opaque object that is a function of `arity` integer index terms -- an element
+    of the symbolic sequence of interface objects whose uid is `uid[:-2]` (uid ends in '[]'), or the structured
+    result of a pure interface method ('<object uid>.<method>()')."""
+
+    def __init__(self, iface, uid, arity=1):
+        self.iface, self.uid, self.arity = iface, uid, arity
+
+
 def _mshape(ty):
     if isinstance(ty, FixedList):
         return ('tuple', tuple(_mshape(t) for t in ty.elems))
+    if isinstance(ty, Opt):
+        return ('opt', _mshape(ty.inner))
+    if isinstance(ty, RefTo):
+        return ('ref', ty.iface, ty.uid, ty.arity)
+    if isinstance(ty, Iface):
+        iface = ty.iface() if isinstance(ty.iface, types.FunctionType) else ty.iface
+        if getattr(iface, 'mlist_codec', None) is not None:
+            return ('codec', iface)
+    if isinstance(ty, Inst):
+        return ('inst', ty.cls, tuple((k, _mshape(t)) for k, t in ty.fields.items()))
     if isinstance(ty, _Int):
         return ('int',)
     if isinstance(ty, _Bool):
         return ('bool',)
     if isinstance(ty, _Str):
         return ('str',)
+    if isinstance(ty, Iface):
+        from .mlist import record_shape
+        iface = ty.iface() if isinstance(ty.iface, types.FunctionType) else ty.iface
+        return record_shape(iface)
     if isinstance(ty, Opaq):
         return ('obj',)      # arbitrary objects, by handle (pyvc.mlist.handle_of)
     raise Unsupported('MListOf element type %r' % (ty,))
+
+
+class Measure:
+    """A left fold over a list, usable in clauses and loop invariants:
+        h([]) == init,   h(xs + [x]) == step(h(xs), x, *params)        (h(xs, *params) to apply it)
+    Natively it is computed.  In proofs it is computed on lists built by the code; on an `MListOf` list it
+    is a ghost value of the list: unknown (of shape ``shape``) when the list is havocked at a loop head or
+    comes out of a contract, and updated by `step` at every append / extend the code performs."""
+
+    def __init__(self, name, init, step, shape):
+        self.name = name
+        self.init = init
+        self.step = step
+        self.shape = shape
+
+    def __call__(self, xs, *params):
+        acc = self.init
+        for x in xs:
+            acc = self.step(acc, x, *params)
+        return acc
+
+    def __repr__(self):
+        return '<Measure %s>' % self.name
 
 
 class PDictOf(Ty):
@@ -337,28 +443,27 @@ class PDictOf(Ty):
         d.havoc(interp, 'in')
         return d
 
-
-class HavocBy(Ty):
-    """In `M.loop(... modifies={'source': HavocBy(fn)})`: the object bound to the name is changed in place by
-    the loop body; at the loop head `fn(interp, obj)` makes it arbitrary (e.g. by an environment step)."""
-
-    def __init__(self, fn):
-        self.fn = fn
-
-    def make(self, interp, name):
-        raise Unsupported('HavocBy is only meaningful in loop frames')
+    def havoc_in_place(self, interp, obj, tag):
+        obj.havoc(interp, tag)
 
 
 class IterOf(Ty):
     """An iterator over a sequence of symbolic length (e.g. the lines of a file), positioned at its start.
     In clauses: `it.xs` is the underlying sequence, `it.pos` the number of items consumed so far."""
 
-    def __init__(self, elem):
+    def __init__(self, elem, at_start=True, min_len=0):
         self.elem = elem
+        self.at_start = at_start      # False: an arbitrary number of items has been consumed already
+        self.min_len = min_len
 
     def make(self, interp, name):
         from .models import SIter
-        return SIter(ListOf(self.elem).make(interp, name), 0)
+        xs = ListOf(self.elem, self.min_len).make(interp, name)
+        if self.at_start:
+            return SIter(xs, 0)
+        p = interp.st.fresh_int(name + '.pos')
+        interp.st.assume(z3.And(p >= 0, p <= xs.length))
+        return SIter(xs, SInt(p))
 
     def concrete(self, cx, name):
         return iter(ListOf(self.elem).concrete(cx, name))
@@ -376,6 +481,36 @@ class FixedList(Ty):
     def concrete(self, cx, name):
         vals = [t.concrete(cx, '%s[%d]' % (name, i)) for i, t in enumerate(self.elems)]
         return tuple(vals) if self.as_tuple else vals
+
+
+class CtxOf(Ty):
+    """The result of an `@contextmanager` generator function used through its contract: yields one value."""
+
+    def __init__(self, inner):
+        self.inner = inner
+
+    def make(self, interp, name):
+        from .interp import GenObj
+        v = self.inner.make(interp, name) if isinstance(self.inner, Ty) else self.inner
+
+        def runner(gen):
+            gen.do_yield(v)
+            return None
+
+        return GenObj(interp, runner, name)
+
+
+class FixedDict(Ty):
+    """A concrete dict with exactly the given (concrete) keys; the values have the given shapes."""
+
+    def __init__(self, **fields):
+        self.fields = fields
+
+    def make(self, interp, name):
+        return {k: t.make(interp, '%s[%s]' % (name, k)) for k, t in self.fields.items()}
+
+    def concrete(self, cx, name):
+        return {k: t.concrete(cx, '%s[%s]' % (name, k)) for k, t in self.fields.items()}
 
 
 class Opaq(Ty):
@@ -413,37 +548,150 @@ class Custom(Ty):
         return self.concrete_fn(cx, name)
 
 
-def make_indexed(interp, ty, uid, idx_term):
+class Dependent(Ty):
+    """Shape of a result (or of a raised exception) that is built from the arguments of the call:
+    ``fn(interp, name, env)`` with ``env`` = parameters and ghosts by name.  Only meaningful where a
+    contract is *used* (call sites); e.g. a result object that carries one of the arguments."""
+
+    def __init__(self, fn):
+        self.fn = fn
+
+    def make(self, interp, name):
+        raise Unsupported('Dependent shape outside a call site')
+
+    def make_for_call(self, interp, name, env):
+        return self.fn(interp, name, env)
+
+
+class InPlace:
+    """`modifies` entry for an object whose (ghost) fields a loop body changes through method calls:
+    the named fields are havocked in place, the object identity is kept."""
+
+    def __init__(self, **fields):
+        self.fields = fields
+
+    def havoc_in_place(self, interp, obj, tag):
+        from .values import Opaque
+        for k, ty in self.fields.items():
+            v = ty.make(interp, '%s.%s' % (tag, k)) if isinstance(ty, Ty) else ty
+            if isinstance(obj, Opaque):
+                obj._pv_ghost[k] = v
+            else:
+                interp.setattr(obj, k, v)
+
+
+class InPlaceBy:
+    """`modifies` entry: the object is havocked in place by fn(interp, obj, tag) (engine API).
+    whole=True: fn makes the whole object arbitrary, so a loop body may store to any of its fields."""
+
+    def __init__(self, fn, whole=False):
+        self.fn = fn
+        self.whole = whole
+
+    def havoc_in_place(self, interp, obj, tag):
+        self.fn(interp, obj, tag)
+
+
+def make_indexed(interp, ty, uid, idx_term, prefix=()):
     """Element of an SList at a symbolic index: scalar fields become applications of
-    uninterpreted functions to the index, so equal indices give equal elements."""
+    uninterpreted functions to the index, so equal indices give equal elements.
+    ``prefix``: index terms of the owner when the list is itself an attribute of an indexed object."""
     st = interp.st
+    idx = tuple(prefix) + (idx_term,)
+    sorts = [x.sort() if hasattr(x, "sort") else z3.IntSort() for x in idx]
     if isinstance(ty, _Int):
-        f = z3.Function(uid + '[]', z3.IntSort(), z3.IntSort())
-        t = f(idx_term)
+        f = z3.Function(uid + '[]', *(sorts + [z3.IntSort()]))
+        t = f(*idx)
         if ty.lo is not None:
-            st.assume(t >= ty.lo)
+            st.assume_unscoped(t >= ty.lo)
         if ty.hi is not None:
-            st.assume(t <= ty.hi)
+            st.assume_unscoped(t <= ty.hi)
         return SInt(t)
     if isinstance(ty, _Bool):
-        f = z3.Function(uid + '[]', z3.IntSort(), z3.BoolSort())
-        return SBool(f(idx_term))
+        f = z3.Function(uid + '[]', *(sorts + [z3.BoolSort()]))
+        return SBool(f(*idx))
     if isinstance(ty, _Str):
-        f = z3.Function(uid + '[]', z3.IntSort(), z3.StringSort())
-        return SStr(f(idx_term))
+        f = z3.Function(uid + '[]', *(sorts + [z3.StringSort()]))
+        return SStr(f(*idx))
     if isinstance(ty, Iface):
         iface = ty.iface() if isinstance(ty.iface, types.FunctionType) else ty.iface
-        return new_opaque(interp, iface, uid + '[]', index=(idx_term,))
+        return new_opaque(interp, iface, uid + '[]', index=idx)
     if isinstance(ty, Opaq):
-        return OpaqueVal('%s[%s]' % (uid, z3.simplify(idx_term)))
+        return OpaqueVal('%s[%s]' % (uid, ','.join(str(z3.simplify(t)) for t in idx)))
     if isinstance(ty, FixedList):
-        vals = [make_indexed(interp, t, '%s.%d' % (uid, i), idx_term) for i, t in enumerate(ty.elems)]
+        vals = [make_indexed(interp, t, '%s.%d' % (uid, i), idx_term, prefix) for i, t in enumerate(ty.elems)]
         return tuple(vals) if ty.as_tuple else vals
+    return indexed_value(interp, ty, uid + '[]', idx)
+
+
+def indexed_value(interp, ty, base, idx):
+    """A value of shape ``ty`` that is a function of the index tuple ``idx`` (element of a symbolic-length
+    sequence, or a component of such an element): scalars are applications of uninterpreted functions
+    named after ``base``, real instances (`Inst`) are built from indexed fields."""
+    st = interp.st
+    idx = tuple(idx)
+    sorts = [x.sort() if hasattr(x, 'sort') else z3.IntSort() for x in idx]
+    if isinstance(ty, _Int):
+        t = z3.Function(base, *(sorts + [z3.IntSort()]))(*idx)
+        if ty.lo is not None:
+            st.assume_unscoped(t >= ty.lo)
+        if ty.hi is not None:
+            st.assume_unscoped(t <= ty.hi)
+        return SInt(t)
+    if isinstance(ty, _Bool):
+        return SBool(z3.Function(base, *(sorts + [z3.BoolSort()]))(*idx))
+    if isinstance(ty, _Str):
+        return SStr(z3.Function(base, *(sorts + [z3.StringSort()]))(*idx))
     if isinstance(ty, Opt):
-        f = z3.Function(uid + '[].is_none', z3.IntSort(), z3.BoolSort())
-        return SOpt(f(idx_term), make_indexed(interp, ty.inner, uid, idx_term))
+        isn = z3.Function(base + '.is_none', *(sorts + [z3.BoolSort()]))(*idx)
+        return SOpt(isn, indexed_value(interp, ty.inner, base, idx))
     if isinstance(ty, Const):
         return ty.value
+    if isinstance(ty, OneOf):
+        if len(ty.values) == 1:
+            return ty.values[0]
+        t = z3.Function(base + '.idx', *(sorts + [z3.IntSort()]))(*idx)
+        st.assume_unscoped(z3.And(t >= 0, t < len(ty.values)))
+        return SChoice(t, ty.values)
+    if isinstance(ty, Involution):
+        raise Unsupported('indexed element of type Involution (use it as an attribute)')
+    if isinstance(ty, Iface):
+        iface = ty.iface() if isinstance(ty.iface, types.FunctionType) else ty.iface
+        return new_opaque(interp, iface, base, index=idx)
+    if isinstance(ty, Opaq):
+        return OpaqueVal('%s(%s)' % (base, ','.join(str(z3.simplify(i)) for i in idx)))
+    if isinstance(ty, Inst):
+        cls = ty.cls
+        if ty.tuple_items is not None:
+            obj = tuple.__new__(cls, [indexed_value(interp, t, '%s[%d]' % (base, i), idx)
+                                      for i, t in enumerate(ty.tuple_items)])
+        elif issubclass(cls, BaseException):
+            obj = cls.__new__(cls)
+        else:
+            obj = object.__new__(cls)
+        for k, t in ty.fields.items():
+            v = indexed_value(interp, t, '%s.%s' % (base, k), idx) if isinstance(t, Ty) else t
+            object.__setattr__(obj, k, v)
+        if ty.invariant is not None:
+            st.assume_unscoped(interp.truth(interp.call(ty.invariant, [obj], {})))
+        return obj
+    if isinstance(ty, FixedList):
+        vals = [indexed_value(interp, t, '%s[%d]' % (base, i), idx) for i, t in enumerate(ty.elems)]
+        return tuple(vals) if ty.as_tuple else vals
+    if isinstance(ty, FixedDict):
+        return {k: indexed_value(interp, t, '%s[%s]' % (base, k), idx) for k, t in ty.fields.items()}
+    if isinstance(ty, ListOf):
+        n = z3.Function(base + '.len', *(sorts + [z3.IntSort()]))(*idx)
+        st.assume_unscoped(n >= ty.min_len)
+        elem_ty = ty.elem
+
+        def elem(interp2, idx_term, base=base, idx=idx):
+            return indexed_value(interp2, elem_ty, base + '[]', tuple(idx) + (idx_term,))
+
+        out = SList(n, elem, '%s<%s>' % (base, ','.join(z3.simplify(i).sexpr() for i in idx)),
+                    ident=(base, tuple(idx)))
+        out.elem_ty = elem_ty
+        return out
     raise Unsupported('indexed element of type %r' % (ty,))
 
 
@@ -477,22 +725,57 @@ class Interface:
 
     target_class : the real (abstract) class the objects claim to be instances of
     attrs        : {name: Ty}           -- pure attributes / properties (cached per object)
+    props        : {name: model(interp, self)}  -- computed properties (evaluated at every read)
     attr_raises  : {name: (predicate(self), ExceptionClass)}  -- reading raises when predicate
     methods      : {name: Method}
     invariant    : optional staticmethod predicate(self) assumed when an object is created
     """
     target_class = None
     attrs = {}
+    props = {}
     attr_raises = {}
     methods = {}
+    computed = {}          # {name: fn(interp, obj) -> value}: attributes that are functions of the object
     invariant = None
     truthy = True
 
 
-def new_opaque(interp, iface, name, index=(), preset=None):
+def universe_of(iface):
+    """Name of the id space of a by-id interface: shared by all its sub-interfaces."""
+    root = iface
+    for k in iface.__mro__:
+        if k.__dict__.get('by_id'):
+            root = k
+    return 'U.' + root.__name__
+
+
+def opaque_of_id(interp, iface, id_term):
+    """The object of by-id interface ``iface`` with the given id: all its attributes are functions of the id."""
+    return new_opaque(interp, iface, universe_of(iface), index=(id_term,), _is_id=True)
+
+
+def same_object(a, b):
+    """Identity of two opaque objects where the engine can tell: by-id objects of one universe."""
+    ia, ib = a._pv_iface, b._pv_iface
+    if getattr(ia, 'by_id', False) and getattr(ib, 'by_id', False) and isinstance(ia, type) and isinstance(ib, type):
+        if universe_of(ia) == universe_of(ib) and len(a._pv_index) == 1 and len(b._pv_index) == 1:
+            return wrap(a._pv_index[0] == b._pv_index[0])
+    return None
+
+
+def new_opaque(interp, iface, name, index=(), preset=None, _is_id=False):
     st = interp.st
+    if getattr(iface, 'by_id', False) and not _is_id:
+        # objects identified by an integer id (ghost address): a fresh id, or a function of the owner's index
+        if index:
+            idt = z3.Function(name + ".id", *([x.sort() for x in index] + [z3.IntSort()]))(*index)
+        else:
+            idt = st.fresh_int(name + '.id')
+        name, index = universe_of(iface), (idt,)
     uid = st.fresh_name(name) if not index else name
     o = Opaque(iface, uid)
+    if hasattr(interp, 'note_new_object'):
+        interp.note_new_object(o)
     o.__dict__['_pv_index'] = tuple(index)
     if preset:
         o._pv_attrs.update(preset)
@@ -504,11 +787,11 @@ def new_opaque(interp, iface, name, index=(), preset=None):
                 break
     if inv is not None:
         f = inv.__func__ if isinstance(inv, staticmethod) else inv
-        assume_pred(interp, f, o)
+        assume_pred(interp, f, o, unscoped=True)
     return o
 
 
-def assume_pred(interp, pred, *args):
+def assume_pred(interp, pred, *args, unscoped=False):
     """Assume a sidecar predicate; parameters beyond the given arguments are ghosts, by name."""
     from .loops import _param_names
     names = _param_names(pred)
@@ -517,7 +800,11 @@ def assume_pred(interp, pred, *args):
         if n not in interp.reg.ghost_env:
             raise Unsupported('predicate %s needs ghost %r which is not in scope' % (getattr(pred, '__name__', pred), n))
         extra.append(interp.reg.ghost_env[n])
-    interp.st.assume(interp.truth(interp.call_assumed(pred, list(args) + extra, {})))
+    v = interp.truth(interp.call_assumed(pred, list(args) + extra, {}))
+    if unscoped:
+        interp.st.assume_unscoped(v)
+    else:
+        interp.st.assume(v)
 
 
 def _iface_lookup(iface, table, name):
@@ -529,25 +816,11 @@ def _iface_lookup(iface, table, name):
 
 
 def _indexed_scalar(interp, o, name, ty):
-    """Scalar attribute of an indexed opaque: function of the index."""
+    """Attribute of an indexed opaque: function of the index."""
     idx = o._pv_index
     st = interp.st
     base = '%s.%s' % (o._pv_uid, name)
     sorts = [x.sort() for x in idx]
-    if isinstance(ty, _Int):
-        t = z3.Function(base, *(sorts + [z3.IntSort()]))(*idx)
-        if ty.lo is not None:
-            st.assume(t >= ty.lo)
-        if ty.hi is not None:
-            st.assume(t <= ty.hi)
-        return SInt(t)
-    if isinstance(ty, _Bool):
-        return SBool(z3.Function(base, *(sorts + [z3.BoolSort()]))(*idx))
-    if isinstance(ty, _Str):
-        return SStr(z3.Function(base, *(sorts + [z3.StringSort()]))(*idx))
-    if isinstance(ty, Opt):
-        isn = z3.Function(base + '.is_none', *(sorts + [z3.BoolSort()]))(*idx)
-        return SOpt(isn, _indexed_scalar(interp, o, name, ty.inner))
     if isinstance(ty, Involution):
         return ty.make_attr(interp, base, o, index=idx)
     if isinstance(ty, Iface):
@@ -555,11 +828,21 @@ def _indexed_scalar(interp, o, name, ty):
         return new_opaque(interp, iface, base, index=idx)
     if isinstance(ty, OneOf):
         t = z3.Function(base + '.idx', *(sorts + [z3.IntSort()]))(*idx)
-        st.assume(z3.And(t >= 0, t < len(ty.values)))
+        st.assume_unscoped(z3.And(t >= 0, t < len(ty.values)))
         return SChoice(t, ty.values) if len(ty.values) > 1 else ty.values[0]
     if isinstance(ty, Const):
         return ty.value
-    raise Unsupported('indexed attribute of type %r' % (ty,))
+    if isinstance(ty, ListOf):
+        n = z3.Function(base + '.len', *(sorts + [z3.IntSort()]))(*idx)
+        st.assume_unscoped(n >= ty.min_len)
+        elem_ty = ty.elem
+
+        def elem(interp2, j, base=base, idx=idx):
+            return make_indexed(interp2, elem_ty, base, j, prefix=idx)
+
+        return SList(n, elem, '%s<%s>' % (base, ','.join(z3.simplify(t).sexpr() for t in idx)),
+                     ident=(base, tuple(idx)))
+    return indexed_value(interp, ty, base, idx)
 
 
 class Registry:
@@ -569,6 +852,9 @@ class Registry:
         self.contracts = {}        # qualified name -> Contract
         self.by_func = {}          # function object -> Contract
         self.models = {}           # callable -> model
+        self.scoped_models = {}    # property id -> {callable -> model}: Module.model(...) registrations apply only
+        #                            while a function of that property is verified (no cross-property clashes)
+        self.current_props = ()    # property ids of the function under verification
         self.loops = {}            # (qualified name, ordinal) -> LoopSpec
         self.loops_by_code = {}
         self.under_verification = None
@@ -576,34 +862,54 @@ class Registry:
         self.transparent = set()
         self.missing = []
         self.abstractions = {}     # spec function -> (when(interp), make(interp, args, kwargs))
+        self.local_shapes = {}     # FuncInfo -> {local name: MListOf}
 
     # ----- registration ---------------------------------------------------------
     def add_contract(self, c):
-        self.contracts[c.qname] = c
+        """Several sidecar modules may give the same function a contract (e.g. C04 verifies
+        `_do_execute` in detail while C01 only needs a trusted summary of it).  The first one is registered
+        under the qualified name, further ones under 'qname#<module property>'."""
+        key = c.qname
+        if key in self.contracts:
+            key = '%s#%s' % (c.qname, getattr(getattr(c, 'module', None), 'prop', '?'))
+            n = 2
+            while key in self.contracts:
+                key = '%s#%s.%d' % (c.qname, getattr(getattr(c, 'module', None), 'prop', '?'), n)
+                n += 1
+        c.key = key
+        self.contracts[key] = c
 
     def link(self):
         """Resolve qualified names against the imported current tree."""
         self.by_func = {}
         self.missing = []
-        for q, c in self.contracts.items():
+        for key, c in self.contracts.items():
+            q = c.qname
             try:
                 obj, owner = frontend.resolve_qualified(q)
             except LookupError as e:
-                self.missing.append((q, str(e)))
+                self.missing.append((key, str(e)))
                 continue
             f = frontend.raw_function(obj)
             if not isinstance(f, types.FunctionType):
-                self.missing.append((q, 'contract target is not a python function: %r' % (obj,)))
+                self.missing.append((key, 'contract target is not a python function: %r' % (obj,)))
                 continue
             c.func = f
             c.owner = owner
             c.raw = obj
-            self.by_func[f] = c
+            self.by_func.setdefault(f, []).append(c)
             c.returns_value = None
+            if c.locals:
+                try:
+                    self.local_shapes[frontend.funcinfo_of(f)] = c.locals
+                except Exception as e:
+                    self.missing.append((q, 'locals=: cannot locate the source (%s)' % e))
         self.loops_by_code = {}
-        for (q, ordinal), ls in self.loops.items():
+        for key, ls in self.loops.items():
+            q, ordinal = key[0], key[1]
             try:
-                obj, owner = frontend.resolve_qualified(q)
+                # a loop of a nested function: only the enclosing function can be resolved statically
+                obj, owner = frontend.resolve_qualified(q.partition('.<locals>')[0])
             except LookupError as e:
                 self.missing.append((q, str(e)))
                 continue
@@ -611,11 +917,58 @@ class Registry:
             self.loops_by_code[(f.__code__, ordinal)] = ls
 
     def contract_for(self, func):
-        return self.by_func.get(func)
+        """The contract used at a call site: the one of the sidecar module whose function is being
+        verified if it has one, else the first verified (non-trusted) one, else the first."""
+        cands = self.by_func.get(func)
+        if not cands:
+            return None
+        cur = getattr(self, 'current_module', None)
+        for c in cands:
+            if getattr(c, 'module', None) is cur and cur is not None:
+                return c
+        for c in cands:
+            if not c.trusted:
+                return c
+        # an ASSUMED contract belongs to the module that states (and lists) the assumption: other modules
+        # see the real body, unless the assumption is declared shared
+        for c in cands:
+            if getattr(c, 'shared', False) or cur is None:
+                return c
+        return None
+
+    def args_fit_contract(self, interp, c, func, args, kwargs):
+        from . import verify
+        try:
+            bound = verify.bind_call_args(func, args, kwargs)
+        except Unsupported:
+            return False
+        for name, ty in c.params.items():
+            if name in bound and not _fits(ty, bound[name]):
+                return False
+        return True
 
     def model_for(self, f):
         try:
-            return self.models.get(f)
+            # a callable modelled by several sidecar modules: the module whose function is being verified sees
+            # its own model; then the models of the modules it builds on (python imports between sidecar
+            # modules: C03 builds on C01's models, C17 on C04's); the ghost file system of C04 and the path
+            # model of C12 do not see each other
+            cur = getattr(self, 'current_module', None)
+            own = getattr(self, 'module_models', {}).get(cur)
+            m = own.get(f) if own else None
+            if m is not None:
+                return m
+            for p in getattr(self, 'current_scope', None) or getattr(self, 'current_props', ()):
+                m = self.scoped_models.get(p, {}).get(f)
+                if m is not None:
+                    return m
+            m = self.models.get(f)
+            if m is None:
+                # library models registered with pyvc.models.model(...) (also for the ghost primitives of
+                # pyvc/pymodels, which are python functions in an interpretable file)
+                from . import models as _models
+                m = _models.MODELS.get(f)
+            return m
         except TypeError:
             return None
 
@@ -630,7 +983,12 @@ class Registry:
                 raise PyRaise(exc('interface: %s not available' % name))
         if name in o._pv_attrs:
             return o._pv_attrs[name]
+        pm = _iface_lookup(iface, 'props', name)
+        if pm is not None:
+            return pm(interp, o)       # computed property: model(interp, self), evaluated at every read
         ty = _iface_lookup(iface, 'attrs', name)
+        if isinstance(ty, Derived):
+            return interp.call(ty.fn, [o], {})
         if ty is not None:
             if o._pv_index:
                 v = _indexed_scalar(interp, o, name, ty)
@@ -638,6 +996,12 @@ class Registry:
                 v = ty.make_attr(interp, '%s.%s' % (o._pv_uid, name), o)
             else:
                 v = ty.make(interp, '%s.%s' % (o._pv_uid, name)) if isinstance(ty, Ty) else ty
+            o._pv_attrs[name] = v
+            return v
+        comp = _iface_lookup(iface, 'computed', name)
+        if comp is not None:
+            # an attribute that is a function of the object: computed on first access, then cached
+            v = comp(interp, o)
             o._pv_attrs[name] = v
             return v
         m = _iface_lookup(iface, 'methods', name)
@@ -655,7 +1019,9 @@ class Registry:
 
     def opaque_has(self, interp, o, name):
         iface = o._pv_iface
-        return _iface_lookup(iface, 'attrs', name) is not None or _iface_lookup(iface, 'methods', name) is not None
+        return _iface_lookup(iface, 'attrs', name) is not None or _iface_lookup(iface, 'methods', name) is not None \
+            or _iface_lookup(iface, 'props', name) is not None \
+            or _iface_lookup(iface, 'computed', name) is not None
 
     def opaque_type(self, interp, o):
         return o._pv_cls
@@ -725,12 +1091,56 @@ def _returns_a_value(f):
         return True
     if info.is_generator:
         return True
-    from .loops import _walk_own
-    for n in _walk_own(info.node):
+    todo = list(info.node.body)
+    while todo:
+        n = todo.pop()
+        if isinstance(n, (_ast.FunctionDef, _ast.AsyncFunctionDef, _ast.Lambda, _ast.ClassDef)):
+            continue        # a nested definition: its returns are not returns of this function
         if isinstance(n, _ast.Return) and n.value is not None and not (
                 isinstance(n.value, _ast.Constant) and n.value.value is None):
             return True
+        todo.extend(_ast.iter_child_nodes(n))
     return False
+
+
+def _fits(ty, v):
+    """Could the value have been produced by the shape?  (conservative for shapes that cannot be inspected)"""
+    if isinstance(v, SChoice):
+        return all(_fits(ty, a) for a in v.alts)
+    if isinstance(ty, Opt):
+        if v is None:
+            return True
+        if isinstance(v, SOpt):
+            return _fits(ty.inner, v.val)
+        return _fits(ty.inner, v)
+    if isinstance(v, SOpt):
+        return False
+    if isinstance(ty, Iface):
+        iface = ty.iface() if isinstance(ty.iface, types.FunctionType) else ty.iface
+        return isinstance(v, Opaque) and isinstance(v._pv_iface, type) and issubclass(v._pv_iface, iface)
+    if isinstance(ty, Inst):
+        if isinstance(v, (Opaque, Sym)) or not isinstance(v, ty.cls):
+            return False
+        d = getattr(v, '__dict__', {})
+        return all(_fits(t, d[k]) for k, t in ty.fields.items() if isinstance(t, Ty) and k in d)
+    if isinstance(ty, _Int):
+        return isinstance(v, (SInt, int)) and not isinstance(v, bool)
+    if isinstance(ty, _Bool):
+        return isinstance(v, (SBool, bool))
+    if isinstance(ty, _Str):
+        return isinstance(v, (SStr, str))
+    if isinstance(ty, ListOf):
+        if isinstance(v, (list, tuple)):
+            return all(_fits(ty.elem, x) for x in v)
+        if isinstance(v, SList):
+            et = getattr(v, 'elem_ty', None)
+            if isinstance(et, Iface) and isinstance(ty.elem, Iface):
+                a = et.iface() if isinstance(et.iface, types.FunctionType) else et.iface
+                b = ty.elem.iface() if isinstance(ty.elem.iface, types.FunctionType) else ty.elem.iface
+                return isinstance(a, type) and issubclass(a, b)
+            return True
+        return False
+    return True
 
 
 class OpaqueMethod:
@@ -756,14 +1166,7 @@ def call_opaque_method(interp, o, name, m, args, kwargs):
         st.assume(ok)
     if m.event is not None:
         st.emit(m.event, o, tuple(args))
-    if m.may_raise:
-        k = st.choose(1 + len(m.may_raise))
-        if k > 0:
-            factory = m.may_raise[k - 1]
-            exc = factory(interp, o) if isinstance(factory, types.FunctionType) else factory()
-            if m.event is not None:
-                st.emit(m.event + ':raised', o, exc)
-            raise PyRaise(exc)
+    key = None
     if m.pure:
         flat = []
         for a in args:
@@ -774,25 +1177,67 @@ def call_opaque_method(interp, o, name, m, args, kwargs):
         args = flat
         key = ('__call__', name, tuple(z3.simplify(to_z3(a)).sexpr() if isinstance(a, (Sym, int, str, bool))
                                         and not isinstance(a, (SOpt, SChoice, SList)) else id(a) for a in args))
+        # a pure method is a function of (object, arguments): the outcome of an earlier call -- value or
+        # exception -- is the outcome of this one
         if key in o._pv_attrs:
             return o._pv_attrs[key]
-        if all(isinstance(a, (SInt, SBool, SStr, int, str, bool)) for a in args) and \
-                isinstance(m.returns, (_Int, _Bool, _Str)):
-            sorts = [x.sort() for x in o._pv_index] + [to_z3(a).sort() for a in args]
+        if ('__raised__', key) in o._pv_attrs:
+            raise PyRaise(o._pv_attrs[('__raised__', key)])
+    if m.may_raise:
+        k = st.choose(1 + len(m.may_raise))
+        if k > 0:
+            factory = m.may_raise[k - 1]
+            exc = factory(interp, o) if isinstance(factory, types.FunctionType) else factory()
+            if m.event is not None:
+                st.emit(m.event + ':raised', o, exc)
+            if key is not None:
+                o._pv_attrs[('__raised__', key)] = exc
+            raise PyRaise(exc)
+    if m.pure:
+        terms = _pure_arg_terms(interp, args)
+        scalar_args = all(isinstance(a, (SInt, SBool, SStr, int, str, bool)) for a in args)
+        if terms is not None and isinstance(m.returns, (_Int, _Bool, _Str)):
+            # a ghost function of (object, arguments): scalars, by-id objects (their id), symbolic maps (their arrays)
+            sorts = [x.sort() for x in o._pv_index] + [t.sort() for t in terms]
             rs = {_Int: z3.IntSort(), _Bool: z3.BoolSort(), _Str: z3.StringSort()}[type(m.returns)]
             f = z3.Function('%s.%s()' % (o._pv_uid, name), *(sorts + [rs]))
-            r = wrap(f(*(list(o._pv_index) + [to_z3(a) for a in args])))
+            r = wrap(f(*(list(o._pv_index) + terms)))
             if isinstance(r, SInt) and m.returns.lo is not None:
                 st.assume(r.t >= m.returns.lo)
-        elif all(isinstance(a, (SInt, SBool, SStr, int, str, bool)) for a in args) and isinstance(m.returns, Iface):
-            # structured result of a pure method: an opaque object indexed by (object index, arguments),
-            # i.e. its attributes are functions of the arguments
-            iface = m.returns.iface() if isinstance(m.returns.iface, types.FunctionType) else m.returns.iface
-            r = new_opaque(interp, iface, '%s.%s()' % (o._pv_uid, name),
-                           index=tuple(o._pv_index) + tuple(to_z3(a) for a in args))
+            if m.may_raise and key is not None:
+                # the first outcome (here: a value) is the outcome of every later call with these arguments
+                o._pv_attrs[key] = r
         else:
-            r = m.returns.make(interp, '%s.%s()' % (o._pv_uid, name)) if m.returns is not None else None
-        o._pv_attrs[key] = r
+            key = ('__call__', name, tuple(z3.simplify(to_z3(a)).sexpr() if isinstance(a, (Sym, int, str, bool))
+                                            and not isinstance(a, (SOpt, SChoice, SList)) else id(a) for a in args))
+            if key in o._pv_attrs:
+                return o._pv_attrs[key]
+            if o._pv_index and not args and m.returns is not None and not isinstance(m.returns, Iface):
+                # result of a pure zero-argument method of an indexed object: a function of the index
+                r = _indexed_scalar(interp, o, name + '()', m.returns)
+            elif scalar_args and isinstance(m.returns, Iface) and (args or o._pv_index):
+                # structured result of a pure method: an opaque object indexed by (object index, arguments),
+                # i.e. its attributes are functions of the arguments
+                iface = m.returns.iface() if isinstance(m.returns.iface, types.FunctionType) else m.returns.iface
+                r = new_opaque(interp, iface, '%s.%s()' % (o._pv_uid, name),
+                               index=tuple(o._pv_index) + tuple(to_z3(a) for a in args))
+            elif m.returns is not None and args and all(isinstance(a, (SInt, SBool, SStr, int, str, bool, Opaque))
+                                                        for a in args) \
+                    and (o._pv_index or any(isinstance(a, Opaque) and a._pv_index for a in args)):
+                # a function of (object, arguments) where arguments are scalars or (indexed) opaque objects:
+                # the indices of the opaque arguments are arguments of the function(s) standing for the result
+                name_parts, idx_terms = [], list(o._pv_index)
+                for a in args:
+                    if isinstance(a, Opaque):
+                        name_parts.append(a._pv_uid)
+                        idx_terms.extend(a._pv_index)
+                    else:
+                        idx_terms.append(to_z3(a))
+                r = indexed_value(interp, m.returns, '%s.%s(%s)' % (o._pv_uid, name, ','.join(name_parts)),
+                                  tuple(idx_terms))
+            else:
+                r = m.returns.make(interp, '%s.%s()' % (o._pv_uid, name)) if m.returns is not None else None
+            o._pv_attrs[key] = r
     else:
         r = m.returns.make(interp, '%s.%s()' % (o._pv_uid, name)) if m.returns is not None else None
     if m.ensures is not None:
@@ -802,13 +1247,29 @@ def call_opaque_method(interp, o, name, m, args, kwargs):
     return r
 
 
+def _pure_arg_terms(interp, args):
+    from . import models
+    out = []
+    for a in args:
+        if isinstance(a, (SOpt, SChoice)):
+            return None
+        if isinstance(a, models.SMap):
+            out.extend(a.terms())
+            continue
+        t = models.term_of_value(a)
+        if t is None:
+            return None
+        out.append(t)
+    return out
+
+
 # ============================================================================ contracts
 
 class Contract:
     def __init__(self, qname, params=None, ghosts=None, requires=None, returns=None, ensures=None,
                  raises=None, may_raise=(), raises_only=None, modifies=None, props=(), setup=None,
                  old=None, pure_result=False, notes='', concretize=None, replay=None, trusted=False,
-                 cover=None, inline=False, event=None, yields=None):
+                 cover=True, inline=False, event=None, yields=None, shared=False, locals=None):
         self.qname = qname
         self.params = params or {}
         self.ghosts = ghosts or {}
@@ -818,7 +1279,12 @@ class Contract:
         self.raises = raises or {}          # {ExcClass: {'when': pred or None, 'ensures': pred or None}}
         self.may_raise = tuple(may_raise)   # exception classes the function may raise non-deterministically
         self.raises_only = raises_only      # tuple of exception classes or None (= not checked)
-        self.modifies = modifies
+        # call sites: parameters (or 'param.attr.attr' paths) that are mutable symbolic lists / iterators whose
+        # contents the function changes: havocked between `requires`/`old` and `ensures`
+        self.modifies = modifies if isinstance(modifies, dict) else tuple(modifies or ())
+        # {local name: MListOf(...)}: a list literal assigned to this local is represented as a symbolic
+        # mutable list from the start (needed when the list is later handed to a contract that modifies it)
+        self.locals = locals or {}
         self.props = tuple(props)
         self.setup = setup                  # optional: (interp) -> dict of extra ghost bindings / state
         self.old = old                      # optional: callable(args...) -> snapshot, evaluated before the call
@@ -826,6 +1292,7 @@ class Contract:
         self.replay = replay
         self.trusted = trusted              # True: assumed contract (not verified); listed in evidence
         self.cover = cover
+        self.shared = shared                # trusted contracts: also applied when other modules' functions are verified
         self.yields = yields                # generator functions: shape of the items (ListOf(...)) for call sites
         self.event = event                  # ghost event emitted at call sites that use the contract
         self.inline = inline                # verified, but call sites interpret the body (tiny helpers)
@@ -836,7 +1303,7 @@ class Contract:
 
 
 class LoopSpec:
-    def __init__(self, qname, ordinal, invariant, modifies=None, decreases=None, ghosts=None, note='',
+    def __init__(self, qname, ordinal, invariant, modifies=None, decreases=None, ghosts=None, note='', entry=None,
                  pre=None, step=None):
         # pre / step: a relation every iteration must satisfy.  `pre` is evaluated at the start of the arbitrary
         # iteration (after the invariant and the guard are assumed), `step` -- a predicate over `pre` and the
@@ -851,6 +1318,7 @@ class LoopSpec:
         self.decreases = decreases
         self.ghosts = ghosts or {}
         self.note = note
+        self.entry = entry          # optional snapshot expression evaluated at loop entry: `_entry` in the invariant
 
 
 class Module:
@@ -862,15 +1330,20 @@ class Module:
         self.loops = []
         self.models = {}
         self.checks = []       # extra obligation generators: (name, fn(ctx))
+        # contracts of OTHER sidecar modules at call sites of this module's functions:
+        #   'imports' (default) use the contracts of the sidecar modules this module imports (it was written
+        #   against them) and interpret the real body otherwise; 'apply' use every contract; 'fit' only when
+        #   the arguments have the shapes the contract is stated for; 'ignore' never
+        self.foreign_contracts = 'imports'
+        self.string_alignment = False   # pyvc.strings: align cuts / single-character searches with known pieces
         self.bounded_checks = []   # bounded stand-ins: (name, fn(ctx)) -- never counted as proved
         self.transparent = []
         self.assumptions = []
         self.trusted_base = []
 
     def contract(self, qname, **kw):
-        if 'cover' not in kw and getattr(self, 'cover_default', None) is not None:
-            kw['cover'] = self.cover_default      # reachability cover (verify.verify_function): opt-in per module
         c = Contract(qname, **kw)
+        c.module = self
         if not c.props:
             c.props = (self.prop,)
         self.contracts.append(c)
@@ -878,6 +1351,7 @@ class Module:
 
     def loop(self, qname, ordinal, **kw):
         ls = LoopSpec(qname, ordinal, **kw)
+        ls.module = self           # several sidecar modules may annotate the same loop (each for its own contract)
         self.loops.append(ls)
         return ls
 
